@@ -92,3 +92,12 @@ Theorem C02_cast_pass_sound :
   forall fuel g e, admissible_along sem fuel g e -> refines ttensor tteq sem (to_graph g) (to_graph (cast_pass fuel g)) e.
 Proof. exact cast_pass_sound. Qed.
 Print Assumptions C02_cast_pass_sound.
+
+(* ---- a second pass verified end to end: remove_orphan_transposes_ir only performs dead-node removal, for
+        every graph, counting graph outputs and nested-graph captures as observers *)
+From J2O Require Import OrphanPass.
+Theorem C02_orphan_pass_sound :
+  forall (V : Type) (veq : V -> V -> Prop), (forall a, veq a a) -> (forall a b c, veq a b -> veq b c -> veq a c) ->
+  forall (sem : string -> list nat -> list V -> option (list V)) fuel g e, refines V veq sem g (orphan_pass fuel g) e.
+Proof. exact orphan_pass_sound. Qed.
+Print Assumptions C02_orphan_pass_sound.
